@@ -171,6 +171,21 @@ class ndpoly(numpy.ndarray):  # pylint: disable=invalid-name
                 Extra arguments passed to `numpy.ndarray` constructor.
 
         """
+        exponents = numpy.asarray(exponents)
+        if exponents.size and exponents.dtype != object:
+            # Each exponent is stored as one character of the field name:
+            # refuse what has no character of its own instead of wrapping
+            # around to (the key of) a different monomial.
+            largest = int(numpy.max(exponents)) + cls.KEY_OFFSET
+            surrogates = (exponents >= 0xD800 - cls.KEY_OFFSET) & (
+                exponents <= 0xDFFF - cls.KEY_OFFSET
+            )
+            if numpy.min(exponents) < 0 or largest > 0x10FFFF or numpy.any(surrogates):
+                raise ValueError(
+                    "exponents must be non-negative integers with a storage key: "
+                    f"below {0xD800 - cls.KEY_OFFSET}, or from "
+                    f"{0xE000 - cls.KEY_OFFSET} to {0x10FFFF - cls.KEY_OFFSET}"
+                )
         exponents = numpy.array(exponents, dtype=numpy.uint32)
         if numpy.prod(exponents.shape):
             keys = (exponents + cls.KEY_OFFSET).flatten()
